@@ -370,6 +370,27 @@ def d2(cx: Cx, ob: Ob) -> None:
                 break
 
 
+def _expansion_error_handled(cx: Cx, factory, handler) -> bool:
+    """Is ExpansionError (or a class it derives from) caught around the handler: a try/except in the handler, or
+    an error handler registered in the factory (``@bp.errorhandler(E)``, ``@app.exception_handler(E)``,
+    ``add_exception_handler(E, ..)`` / ``register_error_handler(E, ..)``)?"""
+    caught_ok = {"ExpansionError", "ConversionError", "ValueError", "Exception", "BaseException"}
+
+    def short(e) -> str:
+        return ast.unparse(e).rsplit(".", 1)[-1]
+
+    for n in ast.walk(handler.node):
+        if isinstance(n, ast.Try):
+            for h in n.handlers:
+                types = [] if h.type is None else (h.type.elts if isinstance(h.type, ast.Tuple) else [h.type])
+                if h.type is None or any(short(x) in caught_ok for x in types):
+                    return True
+    for n in ast.walk(factory.node):
+        if isinstance(n, ast.Call) and isinstance(n.func, ast.Attribute) and n.func.attr in ("errorhandler", "exception_handler", "add_exception_handler", "register_error_handler") and n.args and short(n.args[0]) in caught_ok:
+            return True
+    return False
+
+
 @obligation("C17-D3", "sibling AGREE: both handlers call converter.expand_pair(prefix, identifier) without flags, answer FAILURE_CODE (= 422) for None and a 302 redirect to the expansion otherwise", floor=4)
 def d3(cx: Cx, ob: Ob) -> None:
     rts = routes(cx, ob)
@@ -381,6 +402,7 @@ def d3(cx: Cx, ob: Ob) -> None:
     ob.site(f"src/curies/resolver_service.py {RS}.FAILURE_CODE", f"= {fc!r}")
     if fc != 422:
         ob.violate(f"{RS}.FAILURE_CODE", "src/curies/resolver_service.py", f"FAILURE_CODE is {fc!r}; unknown prefixes must answer 422", detail="failure-code")
+    eafp: set = set()
     for fw, (fn, handler, parts, line, deco) in rts.items():
         if handler is None:
             continue
@@ -395,8 +417,16 @@ def d3(cx: Cx, ob: Ob) -> None:
                 dflt = prm.default.value if prm is not None and isinstance(prm.default, ast.Constant) else ("?",)
                 if not (is_const(v) and v[1] == dflt and type(v[1]) is type(dflt)):
                     nondefault.append(k)
-            if nondefault:
+            if nondefault == ["strict"] and is_const(dict(c[3]).get("strict"), True) and _expansion_error_handled(cx, fn, handler):
+                # the other protocol: the strict call raises for unknown prefixes and an error handler (registered on
+                # the app / a try around the call) turns ExpansionError into the failure answer.  Which answer that
+                # is, is the registered handler's business and is not followed here.
+                ob.undecide(f"the {fw} handler resolves with expand_pair(strict=True) and leaves unknown prefixes to an ExpansionError handler: the None-test protocol this rule reads is not used")
+                eafp.add(fw)
+            elif nondefault:
                 ob.violate(handler.qualname, handler.where, f"the {fw} handler passes {nondefault} to expand_pair with non-default values: the answer differs from expand()", detail="flags")
+        if fw in eafp:
+            continue
         # other converter methods the handler calls (to word the 422 answer) must not raise
         from ..analyses.mode import Mode
 
